@@ -6,7 +6,7 @@ import GoomVerif.Model.LwwC12
 namespace Drv.C12
 open C12M
 
-def parsePkg : String → Option Pkg | "p0" => some .p0 | "p1" => some .p1 | _ => none
+def parsePkg : String → Option Pkg | "p0" => some .p0 | "p1" => some .p1 | "pq" => some .pq | _ => none
 def parseNats (ts : List String) : Option (List Nat) := ts.mapM String.toNat?
 
 def parseStub : List String → Option Stub
@@ -24,23 +24,44 @@ def parseInstr : List String → Option Instr
     | _ => none
   | ts => (parseStub ts).map .stub
 
+def parseHandle : List String → Option Handle
+  | ["fn", "fA"] => some (.fn false)
+  | ["fn", "fB"] => some (.fn true)
+  | ["st", "M1"] => some (.st false)
+  | ["st", "M2"] => some (.st true)
+  | ["if", "M"] => some .im
+  | ["if", "M.a0"] => some .im          -- `.aN`: which function literal the probe hands to As();
+  | ["if", "M.a1"] => some .im          --   As only stores it (iface.go:98), the model has nothing to record
+  | ["if", "M.a2"] => some .im
+  | ["xf", "X"] => some (.xf .x)
+  | ["xf", "Y"] => some (.xf .y)
+  | ["xf", "nosuch"] => some (.xf .z)
+  | ["xs", "um"] => some .xs
+  | ["i2", "A"] => some (.i2 false)
+  | ["i2", "B"] => some (.i2 true)
+  | ["var", "v"] => some (.vr false)
+  | ["uvar", "w"] => some (.vr true)
+  | _ => none
+
+def isVarHandle : Handle → Bool | .vr _ => true | .i2 _ => true | _ => false       -- handles that are never kept
+
 def parseOp : List String → Option Op
   | ["pkg", p] => (parsePkg p).map .pkg
   | ["reset"] => some .reset
-  | ["var", "set", n] => n.toNat?.map fun _ => .var
   | ["st", "Mz", "look"] => some .stBad
-  | "fn" :: "fA" :: ins => (parseInstr ins).map (.h (.fn false))
-  | "fn" :: "fB" :: ins => (parseInstr ins).map (.h (.fn true))
-  | "st" :: "M1" :: ins => (parseInstr ins).map (.h (.st false))
-  | "st" :: "M2" :: ins => (parseInstr ins).map (.h (.st true))
-  | "if" :: "M" :: ins => (parseInstr ins).map (.h .im)
-  | "if" :: "M.a0" :: ins => (parseInstr ins).map (.h .im)      -- `.aN`: which function literal the probe hands to As();
-  | "if" :: "M.a1" :: ins => (parseInstr ins).map (.h .im)      --   As only stores it (iface.go:98), the model has nothing to record
-  | "if" :: "M.a2" :: ins => (parseInstr ins).map (.h .im)
-  | "xf" :: "X" :: ins => (parseInstr ins).map (.h (.xf .x))
-  | "xf" :: "Y" :: ins => (parseInstr ins).map (.h (.xf .y))
-  | "xf" :: "nosuch" :: ins => (parseInstr ins).map (.h (.xf .z))
-  | "xs" :: "um" :: ins => (parseInstr ins).map (.h .xs)
+  | ["xfe"] => some .xfEmpty
+  | ["qlook"] => some .qlook
+  | ["keep", r, k, n] => do
+    let r ← r.toNat?; let hd ← parseHandle [k, n]
+    if r < 3 && !isVarHandle hd then some (.keep r hd) else none     -- variable handles are never kept (see Model/ApiC12 header)
+  | "on" :: r :: ins => do
+    let r ← r.toNat?; let i ← parseInstr ins
+    if r < 3 then some (.on r i) else none
+  | k :: n :: ins => do
+    let hd ← parseHandle [k, n]; let i ← parseInstr ins
+    match hd, i with
+    | .vr _, .stub _ => none                                         -- VarMock has no Return/When: the probe cannot issue it
+    | _, _ => some (.h hd i)
   | _ => none
 
 /-- split the token list at ";" -/
@@ -50,7 +71,7 @@ def splitOps (ts : List String) : List (List String) :=
   r.1 ++ [r.2]
 
 def showRes : Res → String
-  | .o => "o" | .k i => s!"k{i}" | .v n => s!"v{n}" | .p => "p" | .idx => "P:index-out-of-range"
+  | .o => "o" | .k i => s!"k{i}" | .v n => s!"v{n}" | .p => "p" | .idx => "P:index-out-of-range" | .n => "n"
 
 def showBeh (rs : List Res) : String :=
   let rec go : List Res → List String
@@ -61,27 +82,35 @@ def showBeh (rs : List Res) : String :=
 
 def showStep : StepRes → String
   | .none => "-"
-  | .mid n => s!"m{n}"
+  | .mid _ => "m"                       -- which object it was is not part of the observation (the property does not demand identity)
   | .err .methodNotFound => "panic:method-mz-not-found"
   | .err .funcNameError => "panic:proxy-func-name-error"
   | .err .symbolNotFound => "panic:function-symbol-not-found"
+  | .err .funcNameEmpty => "panic:func-name-is-empty"
+  | .err .notApplicable => "panic:bad-op"
+  | .err .emptyRegister => "panic:bad-op"
 
-def runHist (v : Variant) (ops : List Op) : String :=
-  String.intercalate " ; " ((run v init ops).map fun (r, o) => showStep r ++ " " ++ showBeh o)
+/-- a leading `newq` means: the builder was created by the helper package -/
+def runHist (v : Variant) (q : Bool) (ops : List Op) : String :=
+  let rows := (run v (if q then initP .pq else init) ops).map fun (r, o) => showStep r ++ " " ++ showBeh o
+  String.intercalate " ; " (if q then ("- " ++ showBeh ((observe init).2)) :: rows else rows)
 
-def runLww (ops : List Op) : String :=
-  String.intercalate " ; " ((Lww.run Lww.init ops).map showBeh)
+def runLww (q : Bool) (ops : List Op) : String :=
+  let rows := (Lww.run (if q then Lww.initP .pq else Lww.init) ops).map showBeh
+  String.intercalate " ; " (if q then showBeh ((observe init).2) :: rows else rows)
 
 def handle (toks : List String) : Option String :=
   match toks with
   | cmd :: rest =>
     if cmd = "c12.hist" ∨ cmd = "c12.asfound" ∨ cmd = "c12.lww" then
-      match (splitOps rest).mapM parseOp with
+      let parts := splitOps rest
+      let q := parts.head? == some ["newq"]
+      match (if q then parts.drop 1 else parts).mapM parseOp with
       | none => some "bad-op"
       | some ops =>
-        if cmd = "c12.hist" then some (runHist fixed ops)
-        else if cmd = "c12.asfound" then some (runHist asFound ops)
-        else some (runLww ops)
+        if cmd = "c12.hist" then some (runHist fixed q ops)
+        else if cmd = "c12.asfound" then some (runHist asFound q ops)
+        else some (runLww q ops)
     else none
   | [] => none
 
